@@ -57,21 +57,32 @@ def _client(rng):
         cfg["solver"] = "auto"
     if cfg["t"] in ("T3", "T6") and cfg["solver"].startswith(("cg", "dense")):
         cfg["solver"] = "auto"
-    if cfg["t"] == "T5" and cfg["nload"] > 1 and cfg["solver"].startswith("cg"):
-        cfg["lda"] = True     # the unused load case gives an all-zero adjoint column: only LDAWrapper shields CG from it (documented)
+    if cfg["nload"] > 1 and cfg["solver"].startswith("cg"):
+        cfg["lda"] = True     # an unused / unseeded load case gives an all-zero adjoint column: only LDAWrapper shields CG from it (documented)
     ops = []
     nops = int(rng.integers(3, 26))
     messy = float(rng.choice([0.1, 0.3, 0.5]))
     p_fault = 0.25 if cfg["solver"] in ("dense_auto",) else 0.0
-    # protocol automaton with messy deviations
-    state = "fresh"
+    # protocol automaton with messy deviations.  The regular cycle is the one of an optimisation loop with several responses
+    # (what MMA.response does): set inputs -> response -> (seed -> sensitivity -> reset) x k -> next design
+    state, left = "fresh", 0
+    nxt = {"fresh": "set", "set": "resp", "resp": "seed", "seed": "sens", "sens": "reset"}
     while len(ops) < nops:
         r = rng.random()
         if r < messy:
             k = str(rng.choice(["set", "resp", "seed", "sens", "reset", "resp", "sens"]))
         else:
-            k = {"fresh": "set", "set": "resp", "resp": "seed", "seed": "sens", "sens": "reset", "reset": "set"}[state]
-            state = {"fresh": "set", "set": "resp", "resp": "seed", "seed": "sens", "sens": "reset", "reset": "set"}[state]
+            if state == "reset":
+                if left > 0:
+                    left -= 1
+                    k = "seed"
+                else:
+                    k = "set"
+            else:
+                k = nxt[state]
+            if k == "resp":
+                left = int(rng.integers(0, 3))
+            state = k
         if k == "resp" and rng.random() < p_fault:
             ops.append(dict(op="fault", kind="cholesky_fail", arm=1))
         ops.append(dict(op=k, i=int(rng.integers(0, 8)), seed=int(rng.integers(1 << 30))))
@@ -111,6 +122,8 @@ class Client:
         self.cycles_done = 0        # completed sensitivity passes (prefix measure)
         self.adj_since_resp = 0
         self.pos = 0
+        # an all-zero adjoint right-hand side handed directly to CG is a documented exclusion: no partial seeds there
+        self.partial = not (spec["cfg"]["solver"].startswith("cg") and not spec["cfg"]["lda"])
 
     @staticmethod
     def apply_inputs(T, seeds):
@@ -118,7 +131,7 @@ class Client:
             s.state = setter(sd)
 
 
-def seed_value(sig_state, seed):
+def seed_value(sig_state, seed, partial=True):
     rng = sub_rng(0x3A, seed)
     st = zoo.dense(sig_state)
     w = rng.uniform(-1, 1, st.shape)
@@ -126,6 +139,19 @@ def seed_value(sig_state, seed):
         w = w + 1j * rng.uniform(-1, 1, st.shape)
     if st.shape == ():
         return complex(w) if np.iscomplexobj(st) else float(w)
+    # partial seeds *within* an output (an objective that looks at one mode / one load case / a few entries only):
+    # zero blocks exercise the skip branches of the adjoint code
+    m = seed % 4 if partial else 0
+    if m in (1, 3) and w.ndim == 2 and w.shape[1] > 1:
+        keep = (seed // 4) % w.shape[1]
+        mask = np.zeros(w.shape[1], dtype=bool)
+        mask[keep] = True
+        w = w * mask[None, :]
+    elif m == 2 and w.ndim == 1 and w.size > 1:
+        keep = (seed // 4) % w.size
+        mask = np.zeros(w.size, dtype=bool)
+        mask[keep] = True
+        w = w * mask
     return w
 
 
@@ -197,7 +223,7 @@ def run(case):
             T2["net"].response()
             if with_sens:
                 for si, sd in cl.seeds.items():
-                    T2["sigs"][si].sensitivity = seed_value(T2["sigs"][si].state, sd)
+                    T2["sigs"][si].sensitivity = seed_value(T2["sigs"][si].state, sd, cl.partial)
                 T2["net"].sensitivity()
         return T2
 
@@ -254,7 +280,7 @@ def run(case):
                         tag += "-skip"
                     else:
                         si = T["seedable"][op["i"] % len(T["seedable"])]
-                        T["sigs"][si].sensitivity = seed_value(T["sigs"][si].state, op["seed"])
+                        T["sigs"][si].sensitivity = seed_value(T["sigs"][si].state, op["seed"], cl.partial)
                         cl.seeds[si] = op["seed"]
                 elif op["op"] == "sens":
                     if cl.stale or not cl.responded:
